@@ -153,7 +153,8 @@ class DM:
 
         # stash inputs and some computed values on self
         self.ifn = ifn
-        self.Ifn = fft.fft2(ifn)
+        # ifn is centered on the N//2th sample, move that to [0,0] for convolution
+        self.Ifn = fft.fft2(fft.ifftshift(ifn))
         self.Nout = Nout
         self.Nact = Nact
         self.sep = sep
